@@ -24,7 +24,7 @@ RULE = ('faults = positions/values at which a pipeline function raises (any oper
         'failing elements removed (skipping on) or up to the first failing element (skipping off: original exception in the cause '
         'chain, nothing delivered out of order, sinks closed, helper threads ended); non-trivial = a failing element that is not '
         'the last one together with >= 2 operators, a batching option or threads; distinct = distinct canonical case JSON'
-        '; also: failing source reads under operator programs (iterator sources, threads), abc.Sequence / list-subclass / index-only sources, runs of 127..150 consecutive failing reads, unreadable input batches under re-batching; after an error next() must not hand out further elements')
+        '; also: failing source reads under operator programs (iterator sources, threads), abc.Sequence / list-subclass / index-only sources, runs of 127..150 consecutive failing reads, unreadable input batches under re-batching; after an error next() must not hand out further elements; a runner reused after an earlier pass with the same / the opposite skipping setting')
 ASSUMPTIONS = [
     'every exception raised by a pipeline function is skippable (TreeFn wraps it into ValueError "Failed to call"); an error while '
     'fetching inputs (missing key) or a non-ValueError/TypeError from the data source is not',
@@ -99,11 +99,27 @@ def run_ops(case):
   t, sinks = pipegen.build(prog, num_threads=nthreads)
   before = set(threading.enumerate())
   got, err, after = [], [], []
+  prior = case.get('prior')        # the runner was used before: a whole earlier pass with the same / the opposite setting
+  if prior:
+    what += f' (same runner after an earlier pass with ignore_error={skip if prior == "same" else not skip})'
 
   def consume():
     data = copy.deepcopy(records)
     src = io.SequenceDataSource(FailingSeq(data, bad, 'ValueError') if bad else data)
-    it = t.make().iterate(iter(src) if as_iter else src, ignore_error=skip)
+    runner = t.make()
+    if prior:
+      data0 = copy.deepcopy(records)
+      src0 = io.SequenceDataSource(FailingSeq(data0, bad, 'ValueError') if bad else data0)
+      try:
+        for _ in runner.iterate(iter(src0) if as_iter else src0, ignore_error=skip if prior == 'same' else not skip):
+          pass
+      except Exception:  # pylint: disable=broad-exception-caught
+        pass
+      gc.collect()
+      for s_ in sinks:
+        s_.data.clear()
+        s_.closed = 0
+    it = runner.iterate(iter(src) if as_iter else src, ignore_error=skip)
     try:
       for x in it:
         got.append(x)
@@ -174,6 +190,7 @@ def strat_ops(tier):
     if records and draw(st.integers(0, 3)) == 0:
       case['bad_reads'] = draw(st.lists(st.integers(0, len(records) - 1), min_size=1, max_size=2))
     case['source_as'] = draw(st.sampled_from(['source', 'source', 'iterator']))
+    case['prior'] = draw(st.sampled_from([None, None, None, 'same', 'opposite']))
     return case
   return s()
 
